@@ -82,6 +82,24 @@ def main(argv=None):
         names = [s for s in sorted(lib.SEGMENTS) if S.ok_segment(lib, s) and s != 'MSH']
         rng.shuffle(names)
         ec_default = ec
+        # only the field separator differs from the default set (MSH-2 reads the same) and the leaves hold the
+        # default separator as ordinary text: run after default-delimiter encodings of the same process
+        ec2 = dict(ec_default)
+        ec2['FIELD'] = '#'
+        for text in ('ZXX#a|b#c|d', 'ZXX#x#|#y||z', 'ZXX#p^q|r#s'):
+            if not is_canonical_domain(text, ec2):
+                continue
+            S.case_of('ZXX|a|b', v, S.TOLERANT, ec_default)
+            c = S.case_of(text, v, S.TOLERANT, ec2)
+            cases.append(c)
+            dist['field_separator_only_segments'] = dist.get('field_separator_only_segments', 0) + 1
+            if c['code'] != 0:
+                run.fail('canonical-segment-rejected', 'parse_segment rejects a canonical segment line',
+                         version=v, text=text, code=c['code'], encoding_chars=ec2)
+            elif c['enc'] != text:
+                run.fail('segment-roundtrip-differs', 'parse_segment(text).to_er7() != text on a canonical line',
+                         version=v, text=text, output=c['enc'], segment=text[:3], encoding_chars=ec2,
+                         nonstandard_escape=S.nonstandard_escape(text, ec2))
         for sname in names[:n_seg] + ['ZXX']:
             # a third of the segments are written with another set of delimiters, given explicitly to every call
             if rng.random() < 0.33:
